@@ -112,6 +112,11 @@ func addSQLFeatures(g *gen) {
 			s.Doc = append(s.Doc, fmt.Sprintf(" gomacro:SQL ADD UNIQUE(%s)", c))
 			g.c.AddFeat("sql:unique")
 		}
+		// the same directive text on several tables of the file (every table has an Id column)
+		if g.chance(0.35) {
+			s.Doc = append(s.Doc, " gomacro:SQL ADD CHECK (Id >= 0)")
+			g.c.AddFeat("sql:directive-text-shared-by-tables")
+		}
 		if len(cols) > 1 && g.chance(0.3) {
 			s.Doc = append(s.Doc, fmt.Sprintf(" gomacro:SQL ADD UNIQUE(%s, %s)", cols[0], cols[1]))
 			g.c.AddFeat("sql:uniques")
